@@ -177,6 +177,7 @@ void wire_stmts(Scope &sc, const JV &stmts) {
         if (op == "src") out = wire_src(sc, st);
         else if (op == "push_src") out = wire_push_src(sc, st);
         else if (op == "node") out = wire_node(sc, st, std::move(ins));
+        else if (op == "snode") out = wire_snode(sc, st, std::move(ins));
         else if (op == "op") {
             std::vector<WiringArg> args;
             for (auto &a : st.at("args").a) {
